@@ -59,6 +59,10 @@ var alphabet = []pt{
 	// another series of the same group (no group by)
 	{"a", "f3", 0, 0, ""},
 	{"c", "f3", 0, 7, ""},
+	// a series whose only point lies in the queried data family but after the end of the query range (slot 9 = +90 s,
+	// the range ends at +50 s): a leaf may or may not report an empty group for it, depending on what else its shard
+	// holds - the answer must not
+	{"d", "f1", 9, 512, ""},
 }
 
 var fieldType = map[string]string{"f1": "sum", "f2": "max", "f3": "min"}
